@@ -589,7 +589,12 @@ func (l *loopState) notifySteps() { //nolint:gocognit
 		if err != nil {
 			// An error here often indicates a locking issue in a step provider. This could be caused
 			// by the lock not being held when the output was marked resolved.
-			panic(fmt.Errorf("cannot resolve expressions for %s (%w)", nodeID, err))
+			// Run-time evaluation failures (absent optional values, index out of range, failing
+			// conversions) end the run with an error.
+			l.logger.Errorf("Cannot resolve expressions for %s (%v)", nodeID, err)
+			l.recentErrors <- fmt.Errorf("cannot resolve expressions for %s (%w)", nodeID, err)
+			l.cancel()
+			return
 		}
 
 		// This switch checks to see if it's a node that needs to be run.
